@@ -11,6 +11,8 @@ EXPLANATION = (
 NOT_DECIDED = ("interpolation between knots, continuity, extrapolation, monotone inverses, "
                "non-negativity of the grid calculators (numeric; ulp-adjacent behaviour)")
 
+TECHNIQUE = ('reaching definitions on the CFG: every return / last definition is a clamp/min with the required bounds')
+
 UNITS = [
     "src/celeritas/global/alongstep/AlongStepUniformMscAction.cc",
     "src/celeritas/global/alongstep/AlongStepRZMapFieldMscAction.cc",
